@@ -111,7 +111,9 @@ type Reporter struct {
 	res     Result
 	viol    map[string]*Violation
 	nontriv map[string]struct{}
+	hashes  map[uint64]struct{}
 	maxSamp int
+	fine    bool
 	journal *os.File
 }
 
@@ -119,7 +121,7 @@ func NewReporter(prop, tier string, seed uint64) *Reporter {
 	return &Reporter{
 		res: Result{Property: prop, Tier: tier, Seed: seed, Classes: map[string]int64{}, Counters: map[string]int64{},
 			Extra: map[string]interface{}{}},
-		viol: map[string]*Violation{}, nontriv: map[string]struct{}{}, maxSamp: 6,
+		viol: map[string]*Violation{}, nontriv: map[string]struct{}{}, hashes: map[uint64]struct{}{}, maxSamp: 6,
 	}
 }
 
@@ -134,7 +136,7 @@ func (r *Reporter) EvalN(class string, n int64, nontrivial bool) {
 	r.mu.Lock()
 	r.res.Evaluations += n
 	r.res.Classes[class] += n
-	if nontrivial {
+	if nontrivial && !r.fine {
 		r.nontriv[class] = struct{}{}
 	}
 	r.mu.Unlock()
@@ -145,6 +147,26 @@ func (r *Reporter) EvalN(class string, n int64, nontrivial bool) {
 func (r *Reporter) Distinct(id string) {
 	r.mu.Lock()
 	r.nontriv[id] = struct{}{}
+	r.mu.Unlock()
+}
+
+// FineDistinct switches distinct counting from class keys to explicit Distinct/DistinctBytes identities.
+func (r *Reporter) FineDistinct() { r.fine = true }
+
+// DistinctBytes adds the identity of a non-trivial case given by its input bytes (64-bit FNV digest,
+// so the count is measured without holding the inputs).
+func (r *Reporter) DistinctBytes(parts ...[]byte) {
+	h := uint64(1469598103934665603)
+	for _, p := range parts {
+		for _, b := range p {
+			h ^= uint64(b)
+			h *= 1099511628211
+		}
+		h ^= 0xff
+		h *= 1099511628211
+	}
+	r.mu.Lock()
+	r.hashes[h] = struct{}{}
 	r.mu.Unlock()
 }
 
@@ -234,7 +256,7 @@ func (r *Reporter) Write(path string) error {
 	for _, k := range keys {
 		r.res.Violations = append(r.res.Violations, r.viol[k])
 	}
-	r.res.Nontrivial = len(r.nontriv)
+	r.res.Nontrivial = len(r.nontriv) + len(r.hashes)
 	r.res.Done = true
 	// keep the class table bounded in the file
 	if len(r.res.Classes) > 400 {
